@@ -525,6 +525,15 @@ func (e Element) Write(w io.Writer, indent int) error {
 	if err := writeIndent(w, indent, "<", e.Name); err != nil {
 		return err
 	}
+	if !e.IndentAttrs {
+		// A line break decoded from a character reference (title="&#10;") is written as a line break, which
+		// puts the tag on several lines: lay the tag out the way it will be read back.
+		for _, a := range e.Attributes {
+			if ca, ok := a.(ConstantAttribute); ok && strings.Contains(ca.Value, "\n") {
+				e.IndentAttrs = true
+			}
+		}
+	}
 	for i := range e.Attributes {
 		a := e.Attributes[i]
 		// Only the conditional attributes get indented.
